@@ -1,6 +1,7 @@
 import Ivg.Model.Arc
 import Ivg.Lemmas.ArcCount
 import Ivg.Gen.Tie.RendererFields
+import Ivg.Gen.Tie.Code.Transform
 import Ivg.Obligations
 /-!
 # C06 — elliptical arcs (PARTIAL)
@@ -191,4 +192,16 @@ end Ivg.Props.C06
   Ivg.Props.C06.arcSegments_cubes, Ivg.Props.C06.arcSegments_length, Ivg.Props.C06.rel_is_abs,
   Ivg.Props.C06.arc_disabled_silent, Ivg.Props.C06.arc_at_most_four, Ivg.Props.C06.arc_shape_four,
   Ivg.Props.C06.segment_count_le_four, Ivg.Props.C06.arcSegments_fuel_irrelevant, Ivg.Props.C06.acos_range,
-  Ivg.Props.C06.arc_at_most_four_of_acos_range, Ivg.Gen.Tie.renderer_fields_tie]
+  Ivg.Props.C06.arc_at_most_four_of_acos_range, Ivg.Gen.Tie.renderer_fields_tie,
+  -- regenerated code (translator, Ivg/Gen/Code) = model, for all inputs: Transform
+  Ivg.Gen.Tie.rectangle_Dx_code_tie,
+  Ivg.Gen.Tie.rectangle_Dy_code_tie,
+  Ivg.Gen.Tie.renderer_absX_code_tie,
+  Ivg.Gen.Tie.renderer_absY_code_tie,
+  Ivg.Gen.Tie.renderer_relX_code_tie,
+  Ivg.Gen.Tie.renderer_relY_code_tie,
+  Ivg.Gen.Tie.renderer_unabsX_code_tie,
+  Ivg.Gen.Tie.renderer_unabsY_code_tie,
+  Ivg.Gen.Tie.renderer_absVec2_code_tie,
+  Ivg.Gen.Tie.renderer_recalcTransform_code_tie,
+  Ivg.Gen.Tie.renderer_recalcTransform_code_tie_frame]
